@@ -5,6 +5,7 @@ depends on which spelling a maintainer prefers.
   with contextlib.suppress(E): BODY                   ->  try: BODY except E: pass
   @_guard def f(…): BODY   where the private decorator ->  def f(…): PRE; BODY [; POST on every normal way out]
       only runs PRE, calls f with its arguments unchanged [, runs POST] and returns the result
+  a, b = x.f, y.g                                      ->  a = x.f; b = y.g
   try: x = D[k]  except KeyError: A  else: B           ->  if k in D: x = D[k]; B  else: A      (also return D[k], D[k].append(v))
   with self._h(a…): BODY   where _h is a private       ->  PRE; BODY; POST      (try: BODY finally: POST when _h has one)
       @contextmanager generator  PRE; yield; POST
@@ -790,6 +791,14 @@ def normalise(tree):
                 a = ast.copy_location(ast.Assign(targets=[n.targets[0]], value=n.value.body), n)
                 b = ast.copy_location(ast.Assign(targets=[copy_tree(n.targets[0])], value=n.value.orelse), n)
                 return ast.copy_location(ast.If(test=n.value.test, body=[a], orelse=[b]), n)
+            # a, b = x.f, y.g   ->   a = x.f; b = y.g      (plain local names on the left, none of them read on the right, no constants —
+            # rows of constants stay rows for the table machinery): the same reads in the same order
+            if self.depth > 0 and len(n.targets) == 1 and isinstance(n.targets[0], ast.Tuple) and isinstance(n.value, ast.Tuple) \
+                    and len(n.targets[0].elts) == len(n.value.elts) and all(isinstance(t, ast.Name) for t in n.targets[0].elts) \
+                    and all(isinstance(v, ast.Attribute) for v in n.value.elts):
+                names_ = [t.id for t in n.targets[0].elts]
+                if len(set(names_)) == len(names_) and not any(isinstance(x, ast.Name) and x.id in names_ for v in n.value.elts for x in ast.walk(v)):
+                    return [ast.copy_location(ast.Assign(targets=[t], value=v), n) for t, v in zip(n.targets[0].elts, n.value.elts)]
             return n
 
         def visit_For(self, n):
@@ -875,6 +884,9 @@ def normalise(tree):
             need = True
             break
         if isinstance(x, (ast.Assign, ast.Return)) and isinstance(x.value, ast.IfExp):
+            need = True
+            break
+        if isinstance(x, ast.Assign) and isinstance(x.value, ast.Tuple) and x.value.elts and all(isinstance(v, ast.Attribute) for v in x.value.elts):
             need = True
             break
         if isinstance(x, ast.Try) and len(x.handlers) == 1 and isinstance(x.handlers[0].type, ast.Name) and x.handlers[0].type.id == "KeyError":
